@@ -81,19 +81,43 @@ theorem toNat_encodeZigZag32 (v : BitVec 32) : (Gen.encodeZigZag32 v).toNat =
     simp only [if_true, BitVec.toNat_not, BitVec.toNat_shiftLeft, Nat.shiftLeft_eq]
     omega
 
+/-- the sign mask spelled `-(v & 1)` -/
+theorem neg_and_one32 (v : BitVec 32) :
+    -(v &&& 1#32) = if v.toNat % 2 = 1 then 0xFFFFFFFF#32 else 0#32 := by
+  have h : v &&& 1#32 = BitVec.ofNat 32 (v.toNat % 2) := by
+    apply BitVec.eq_of_toNat_eq
+    simp only [BitVec.toNat_and, BitVec.toNat_ofNat]
+    rw [show (1 % 2 ^ 32 : Nat) = 1 from rfl, Nat.and_one_is_mod]
+    have := v.isLt
+    omega
+  rw [h]
+  by_cases hp : v.toNat % 2 = 1
+  · rw [if_pos hp, hp]; decide
+  · have h0 : v.toNat % 2 = 0 := by omega
+    rw [if_neg hp, h0]; decide
+
 theorem decodeZigZag32_not (v : BitVec 32) :
     Gen.decodeZigZag32 v = if v.toNat % 2 = 1 then ~~~(v >>> 1) else v >>> 1 := by
-  unfold decodeZigZag32
-  rw [sshiftRight31, msb32, BitVec.toNat_shiftLeft, Nat.shiftLeft_eq]
-  have := v.isLt
-  by_cases h : v.toNat % 2 = 1
-  · have h' : 2 ^ 31 ≤ v.toNat * 2 ^ 31 % 2 ^ 32 := by omega
-    rw [if_pos h, decide_eq_true h']
-    simp only [if_true]
-    rw [show 0xFFFFFFFF#32 = BitVec.allOnes 32 from rfl, BitVec.xor_allOnes]
-  · have h' : ¬ 2 ^ 31 ≤ v.toNat * 2 ^ 31 % 2 ^ 32 := by omega
-    rw [if_neg h, decide_eq_false h']
-    simp
+  first
+  | -- `int32(v>>1) ^ int32(v)<<31>>31`
+    (unfold decodeZigZag32
+     rw [sshiftRight31, msb32, BitVec.toNat_shiftLeft, Nat.shiftLeft_eq]
+     have := v.isLt
+     by_cases h : v.toNat % 2 = 1
+     · have h' : 2 ^ 31 ≤ v.toNat * 2 ^ 31 % 2 ^ 32 := by omega
+       rw [if_pos h, decide_eq_true h']
+       simp only [if_true]
+       rw [show 0xFFFFFFFF#32 = BitVec.allOnes 32 from rfl, BitVec.xor_allOnes]
+     · have h' : ¬ 2 ^ 31 ≤ v.toNat * 2 ^ 31 % 2 ^ 32 := by omega
+       rw [if_neg h, decide_eq_false h']
+       simp)
+  | -- the other usual spelling, `int32(v>>1) ^ -int32(v&1)` (the mask possibly in a local)
+    (unfold decodeZigZag32
+     simp only []
+     rw [neg_and_one32]
+     by_cases h : v.toNat % 2 = 1
+     · rw [if_pos h, if_pos h, show 0xFFFFFFFF#32 = BitVec.allOnes 32 from rfl, BitVec.xor_allOnes]
+     · rw [if_neg h, if_neg h]; simp)
 
 theorem toNat_decodeZigZag32 (v : BitVec 32) : (Gen.decodeZigZag32 v).toNat =
     if v.toNat % 2 = 0 then v.toNat / 2 else 2 ^ 32 - (v.toNat + 1) / 2 := by
